@@ -463,7 +463,9 @@ class CFG:
             if is_target(n):
                 path = []
                 cur = n
-                while cur is not None and cur.id in prev:
+                walked = set()
+                while cur is not None and cur.id in prev and cur.id not in walked:       # (a start that is its own target closes a cycle: walk it once)
+                    walked.add(cur.id)
                     src, lab = prev[cur.id]
                     path.append((lab, cur))
                     cur = src
